@@ -56,13 +56,22 @@ pub fn c01_workloads(thorough: bool) -> Vec<(Workload, usize)> {
     let w8 = wl("W8-2frag-x3-back-to-back", ro(), vec![m(A, 0, 0, 0, 2000), m(A, 0, 0, 0, 2001), m(A, 0, 0, 1, 2002)]);
     let mut w9 = wl("W9-tsn-wrap-burst", ro(), (0..8).map(|i| m(A, 0, 0, i * 3, 20 + i as usize)).collect());
     w9.forced = Some([0x1111_1111, 0xFFFF_FFFB, 0x2222_2222, 0xFFFF_FFFD]);
+    // small receive window + a duplicating path: receive-window accounting errors (a chunk counted
+    // twice, never released) reach zero within the fault bound and stall the transfer for good
+    let mut w10 = wl("W10-rwnd4096-10x2500B", ro(), (0..10).map(|i| m(A, 0, 0, i * 2, 2500)).collect());
+    w10.rwnd = Some(4096);
+    w10.faults = vec![Fault::Drop, Fault::DupMany(4), Fault::Delay(3)];
+    let mut w11 = wl("W11-rwnd4096-bidir-6x1100B", ro(), (0..6).flat_map(|i| [m(A, 0, 0, i * 2, 1100), m(B, 0, 0, i * 2 + 1, 1100)]).collect());
+    w11.rwnd = Some(4096);
+    w11.faults = vec![Fault::Drop, Fault::DupMany(4), Fault::DupLate(2), Fault::Delay(3)];
     if thorough {
         vec![
+            (w10, 3), (w11, 2),
             (w1.clone(), 3), (w2, 3), (w3, 3), (w4, 3), (w6, 3), (w5, 2), (w7, 2), (w8, 2), (w9, 2),
             (Workload { name: "W1-bound4".into(), ..w1 }, 4),
         ]
     } else {
-        vec![(w1, 2), (w2, 1), (w3, 1), (w4, 1), (w6, 1), (w5, 1), (w7, 1), (w8, 1), (w9, 1)]
+        vec![(w1, 2), (w2, 1), (w3, 1), (w4, 1), (w6, 1), (w5, 1), (w7, 1), (w8, 1), (w9, 1), (w10, 2)]
     }
 }
 
